@@ -2,6 +2,7 @@ package main
 
 import (
 	"go/types"
+	"sort"
 	"strings"
 
 	"golang.org/x/tools/go/ssa"
@@ -629,10 +630,41 @@ func silenceConversionRule(o *Ob) {
 					continue
 				}
 				seen = true
-				v := resolve(out, st.Val)
-				o.Check(v == map[bool]string{true: "true", false: "false"}[want], "out-flags|"+m.op+"|"+f, "operator "+m.op+" must be reported with "+f+"="+map[bool]string{true: "true", false: "false"}[want]+", is "+v, st)
+				var vs []string
+				if a, ok := st.Val.(*ssa.Alloc); ok {
+					// the address of a local holding the flag: the value stored there on the paths of this row
+					for _, r2 := range *a.Referrers() {
+						if s2, ok := r2.(*ssa.Store); ok && s2.Addr == ssa.Value(a) && r.Has(s2) {
+							vs = append(vs, e.XsAt(r, s2, s2.Val)...)
+						}
+					}
+				} else {
+					vs = e.XsAt(r, st, st.Val)
+				}
+				okf := len(vs) >= 1
+				for _, v := range vs {
+					okf = okf && v == map[bool]string{true: "true", false: "false"}[want]
+				}
+				o.Check(okf, "out-flags|"+m.op+"|"+f, "operator "+m.op+" must be reported with "+f+"="+map[bool]string{true: "true", false: "false"}[want]+", is "+strings.Join(vs, " | "), st)
 			}
 			o.Check(seen, "out-flags-set|"+m.op+"|"+f, "operator "+m.op+" is reported without "+f, fnFirst(out))
+		}
+	}
+	// the reported state: pending before the start, active from the start until the end, expired from then on
+	{
+		cs := o.Fn("am/silence.CurrentState")
+		o.Site(fnFirst(cs), "CurrentState")
+		beforeStart, beforeEnd := L("(time.Now() <t p0)", true), L("(time.Now() <t p1)", true)
+		o.Table(cs, "state", []Row{
+			{Name: "before the start", Assume: A(beforeStart), Ret: [][]string{Vals(`"pending"`)}},
+			{Name: "between start and end", Assume: A(beforeStart.Neg(), beforeEnd), Ret: [][]string{Vals(`"active"`)}},
+			{Name: "from the end on", Assume: A(beforeStart.Neg(), beforeEnd.Neg()), Ret: [][]string{Vals(`"expired"`)}},
+		})
+		sc := o.One(e.Calls(out, "am/silence.CurrentState"), "out-state", "the reported state must be computed by CurrentState", out)
+		o.Check(e.Arg(sc, 0) == "p0.StartsAt.AsTime" && e.Arg(sc, 1) == "p0.EndsAt.AsTime", "out-state-args", "the state must be computed from the silence's own start and end, in this order", sc)
+		for _, st := range e.StoresToField(out, "am/api/v2/models.SilenceStatus", "State") {
+			v := resolve(out, st.Val)
+			o.Check(strings.Contains(v, e.X(out, sc.(*ssa.Call))), "out-state-value", "the reported state must be CurrentState's answer, is "+clip(v), st)
 		}
 	}
 	in := o.Fn("am/api/v2.PostableSilenceToProto")
@@ -657,6 +689,42 @@ func silenceConversionRule(o *Ob) {
 		for _, st := range e.StoresToField(in, "am/silence/silencepb.Matcher", f) {
 			v := resolve(in, st.Val)
 			o.Check(regexpMatch(`\*p0\.Silence\.Matchers\[i\]\.`+src, v), "in-matcher|"+f, "a stored matcher's "+f+" must be the posted matcher's "+src+", is "+clip(v), st)
+		}
+	}
+	// operator flags in: (isEqual, isRegex) → type, a missing isEqual counting as true and a missing isRegex as false
+	{
+		mp := "p0.Silence.Matchers[i]"
+		eqNil, reNil := L("("+mp+".IsEqual == nil)", true), L("("+mp+".IsRegex == nil)", true)
+		eqV, reV := L("*"+mp+".IsEqual", true), L("*"+mp+".IsRegex", true)
+		typeStores := e.StoresToField(in, "am/silence/silencepb.Matcher", "Type")
+		o.Check(len(typeStores) >= 1, "in-flags-sites", "PostableSilenceToProto must set the matcher type", fnFirst(in))
+		for _, m := range []struct {
+			op, ty  string
+			eq, rex bool
+		}{{"=", tEq, true, false}, {"!=", tNe, false, false}, {"=~", tRe, true, true}, {"!~", tNre, false, true}} {
+			as := []LitM{eqNil.Neg(), reNil.Neg(), eqV, reV}
+			if !m.eq {
+				as[2] = eqV.Neg()
+			}
+			if !m.rex {
+				as[3] = reV.Neg()
+			}
+			r := (&Walk{Fn: in, Cut: e.CutContradicting(as...)}).FromEntry()
+			got := map[string]bool{}
+			for _, st := range typeStores {
+				if r.Has(st) {
+					// the value as it reads on the paths of this row (a helper's joined result is fixed by the path)
+					for _, x := range e.XsAt(r, st, st.Val) {
+						got[x] = true
+					}
+				}
+			}
+			var gs []string
+			for g := range got {
+				gs = append(gs, g)
+			}
+			sort.Strings(gs)
+			o.Check(len(gs) == 1 && gs[0] == m.ty, "in-flags|"+m.op, "flags of operator "+m.op+" (isEqual="+map[bool]string{true: "true", false: "false"}[m.eq]+", isRegex="+map[bool]string{true: "true", false: "false"}[m.rex]+") must become matcher type "+m.ty+", become "+strings.Join(gs, " | "), fnFirst(in))
 		}
 	}
 	// every posted matcher is kept
